@@ -399,6 +399,102 @@ func runC07(c *Check, a *Analysis) {
 		})
 	}
 
+	c.Rule("R-FIELD-COPIED", "every header writer copies the bytes of each length-prefixed field into the buffer on every path on which the field is non-empty; the code header's single-byte length form is used only for lengths up to 127 (writer) and only for a first byte up to 127 (reader)", 10)
+	for _, spec := range []struct {
+		fn, st string
+		fields []string
+	}{
+		{"(*pbRequest).MarshalTo", "pbRequest", []string{"Upgrade", "ServiceMethod", "Args"}},
+		{"(*pbResponse).MarshalTo", "pbResponse", []string{"Error", "Reply"}},
+		{"(*request).Marshal", "request", []string{"Upgrade", "ServiceMethod", "Args"}},
+		{"(*response).Marshal", "response", []string{"Error", "Reply"}},
+	} {
+		fn := p.Fn(spec.fn)
+		if fn == nil {
+			c.Undecided("R-FIELD-COPIED", spec.fn+" not found")
+			continue
+		}
+		for _, f := range spec.fields {
+			field := f
+			nonEmpty := func(cond ssa.Value) (bool, bool) {
+				k, eq, ok := p.condFact(cond)
+				if !ok || k.c != "len0" || !isLoadOf(p.canon(k.v), spec.st, field) {
+					// len(F) > 127 also implies non-empty
+					if b, isB := p.canon(cond).(*ssa.BinOp); isB && b.Op == token.GTR {
+						if lc, isL := stripConv(b.X).(*ssa.Call); isL && calleeName(lc) == "builtin len" && isLoadOf(p.canon(lc.Call.Args[0]), spec.st, field) {
+							if kk, isK := constInt(b.Y); isK && kk >= 0 {
+								return true, true
+							}
+						}
+					}
+					return false, false
+				}
+				return true, !eq
+			}
+			edges, n := p.guardEdges(fn, nonEmpty)
+			if n == 0 {
+				c.Undecided("R-FIELD-COPIED", spec.fn+": no emptiness test for field "+field)
+				continue
+			}
+			isCopyOfField := func(x ssa.Instruction) bool {
+				cc, ok := x.(*ssa.Call)
+				if !ok || calleeName(cc) != "builtin copy" {
+					return false
+				}
+				return isLoadOf(p.canon(stripConv(cc.Call.Args[1])), spec.st, field)
+			}
+			for e := range edges {
+				// a nested test may exclude the field again (len > 127 false → short form): follow until return
+				_, tr, miss := p.reachFromBlock(fn, e.to, isReturnLike, isCopyOfField, nil)
+				// the path through the explicit "empty" arm is fine: it is reachable only via len0 facts, which prune it
+				c.Ob("R-FIELD-COPIED", sc.key(fn, "copy("+field+") when non-empty"), p.InstrPos(e.to.Instrs[0]), !miss, ifs(miss, "field "+field+" can be non-empty without its bytes being copied into the header ("+p.lineTrail(tr)+"): the peer decodes garbage / stale buffer contents"))
+			}
+		}
+	}
+	// code header: single-byte length form only below the varint boundary
+	for _, st := range []string{"request", "response"} {
+		if w := p.Fn("(*" + st + ").Marshal"); w != nil {
+			for _, s := range storesIn(w) {
+				if _, isIdx := s.Addr.(*ssa.IndexAddr); !isIdx {
+					continue
+				}
+				cv, isConv := s.Val.(*ssa.Convert)
+				if !isConv {
+					continue
+				}
+				inner := stripConv(cv.X)
+				lc, isL := inner.(*ssa.Call)
+				if !isL || calleeName(lc) != "builtin len" {
+					continue
+				}
+				fr, _, isF := fieldOfLoad(p.canon(lc.Call.Args[0]))
+				if !isF || fr.Struct != st {
+					continue
+				}
+				field := fr.Field
+				g, _ := p.guardedBy(s, func(cond ssa.Value) (bool, bool) {
+					b, isB := p.canon(cond).(*ssa.BinOp)
+					if !isB {
+						return false, false
+					}
+					l2, isL2 := stripConv(b.X).(*ssa.Call)
+					k, isK := constInt(b.Y)
+					if !isL2 || !isK || calleeName(l2) != "builtin len" || !isLoadOf(p.canon(l2.Call.Args[0]), st, field) {
+						return false, false
+					}
+					switch {
+					case b.Op == token.GTR && k == 127, b.Op == token.GEQ && k == 128:
+						return true, false // short form allowed on the false edge
+					case b.Op == token.LEQ && k == 127, b.Op == token.LSS && k == 128:
+						return true, true
+					}
+					return false, false
+				})
+				c.Ob("R-FIELD-COPIED", sc.key(w, "single-byte length only for len("+field+") <= 127"), p.InstrPos(s), g, ifs(!g, "the single-byte length form is written for "+field+" without being limited to lengths <= 127: longer fields are truncated on the wire"))
+			}
+		}
+	}
+
 	// ---- (6) encoder/codec interface agreement
 	c.Rule("R-ENCODER-IFACE", "for every Encoder in the package, the dynamic types returned by NewRequest/NewResponse implement the interface that the codec returned by NewCodec type-asserts", 3)
 	for _, enc := range []string{"PBEncoder", "CODEEncoder", "JSONEncoder"} {
